@@ -104,6 +104,11 @@ struct FindFn {
 
 impl FindFn {
     fn find_regex_in_str(value: &str, regex: &ValueRegex, offset: usize) -> Option<usize> {
+        // `Regex::find_at` panics when the offset is past the end of the haystack. Nothing can be
+        // found there, which is also what the string pattern branch reports.
+        if offset > value.len() {
+            return None;
+        }
         regex.find_at(value, offset).map(|found| found.start())
     }
 
